@@ -304,4 +304,93 @@ def paginateR (len : Nat) (ippStr pageStr : Bytes) : R (Nat × Nat × Nat) :=
     let s ← sliceR (List.range len) lo hi
     pure (pc, lo, s.length)
 
+/-! ### the request a connection hands to the path manager (name, query, credentials) -/
+
+structure AccessReq where
+  publish : Bool
+  name : Bytes
+  query : Bytes
+  user : Bytes
+  pass : Bytes
+  deriving DecidableEq, Repr
+
+/-- SRT `conn.runInner` → `runPublish` / `runRead`: stream id → access request (`err` = `Reject(REJ_PEER)`) -/
+def srtConnRequest (raw : Bytes) : R AccessReq := do
+  let s ← srtUnmarshal raw
+  pure ⟨s.publish, s.path, s.query, s.user, s.pass⟩
+
+/-- RTMP `conn.runRead` / `runPublish`: `strings.TrimLeft(URL.Path, "/")`, `URL.RawQuery`;
+`user`, `pass` = oracles for `URL.Query().Get(..)` -/
+def rtmpConnRequest (publish : Bool) (path rawQuery oUser oPass : Bytes) : R AccessReq :=
+  pure ⟨publish, trimLeft (asc ['/']) path, rawQuery, oUser, oPass⟩
+
+/-- RTSP `onDescribe` / `onAnnounce` / `onSetup`: the path handed over by gortsplib must start with `/`,
+which is cut off (`ctx.Path[1:]`); `err` = 400 "invalid path" -/
+def rtspStrip (path : Bytes) : R Bytes :=
+  if path.length = 0 then .err else do
+  let c ← idx path 0
+  if c != 47 then .err else sliceFrom path 1
+
+/-- RTSP `session.onRecord` / `APIReaderDescribe`… use `rsession.Path()[1:]`: the stored path is the
+one `onAnnounce` accepted, i.e. it went through `rtspStrip` -/
+def rtspStoredPathName (announced : Bytes) : R Bytes := do
+  let _ ← rtspStrip announced     -- ANNOUNCE was accepted
+  sliceFrom announced 1
+
+/-! ### path-name validation (conf.IsValidPathName) and the playback server -/
+
+inductive NameErr | empty | leadingSlash | trailingSlash | chars | dots
+  deriving DecidableEq, Repr
+
+/-- `conf.IsValidPathName`; `reOk` = oracle for `rePathName.MatchString(name)`; `none` = valid -/
+def isValidPathName (name : Bytes) (reOk : Bool) : R (Option NameErr) :=
+  if name.isEmpty then pure (some .empty) else do
+  let c0 ← idx name 0
+  if c0 == 47 then pure (some .leadingSlash) else do
+  let cl ← idx name ((name.length : Int) - 1)
+  if cl == 47 then pure (some .trailingSlash)
+  else if !reOk then pure (some .chars)
+  else if (splitOn 47 name).any (fun seg => seg == asc ['.'] || seg == asc ['.', '.']) then pure (some .dots)
+  else pure none
+
+inductive PbOutcome
+  | badPath | unauthorized | noConf | badStart | badEnd | badDuration | badFormat | proceed
+  deriving DecidableEq, Repr
+
+/-- playback `onGet`: path → validation → authentication → start → duration → format → path conf.
+Oracles: `authOk` (auth manager), `startOk` (`time.Parse(RFC3339)`), `durOk` (`ParseFloat` or
+`ParseDuration`), `confOk` (`conf.FindPathConf`). -/
+def playbackGet (path : Bytes) (reOk authOk startOk durOk confOk : Bool) (format : Bytes) : R PbOutcome := do
+  let v ← isValidPathName path reOk
+  if v.isSome then pure .badPath
+  else if !authOk then pure .unauthorized
+  else if !startOk then pure .badStart
+  else if !durOk then pure .badDuration
+  else if !(format.isEmpty || format == asc ['f','m','p','4'] || format == asc ['m','p','4']) then pure .badFormat
+  else if !confOk then pure .noConf
+  else pure .proceed
+
+/-- playback `onList`: path → validation → authentication → path conf → start (optional) → end (optional) -/
+def playbackList (path : Bytes) (reOk authOk confOk : Bool) (start end_ : Bytes) (startOk endOk : Bool) :
+    R PbOutcome := do
+  let v ← isValidPathName path reOk
+  if v.isSome then pure .badPath
+  else if !authOk then pure .unauthorized
+  else if !confOk then pure .noConf
+  else if !start.isEmpty && !startOk then pure .badStart
+  else if !end_.isEmpty && !endOk then pure .badEnd
+  else pure .proceed
+
+/-! ### `httpp.ParseContentType` (WHIP POST / PATCH, before the session lookup) -/
+
+def isAsciiSpace (c : UInt8) : Bool := c == 32 || (9 ≤ c && c ≤ 13)
+
+def trimSpaceAscii (b : Bytes) : Bytes :=
+  ((b.dropWhile isAsciiSpace).reverse.dropWhile isAsciiSpace).reverse
+
+/-- `strings.TrimSpace(strings.Split(v, ";")[0])` (ASCII white space; see assumptions) -/
+def parseContentType (v : Bytes) : R Bytes := do
+  let first ← idx (splitOn 59 v) 0
+  pure (trimSpaceAscii first)
+
 end MtxVerif.C35
